@@ -432,3 +432,109 @@ package mcp
 //@   ensures[C12 one-critical-section] lockops == old(lockops) + 1
 //@ func resourceManager.registerResource
 //@   ensures[C12 one-critical-section] lockops == old(lockops) + 1
+
+// ---------------------------------------------------------------------------
+// streamable_server.go — C03 (every request is answered; faults carry their
+// class status), C04 (session lifecycle).  live(id): the session table as a
+// set; handled counts requests handed to the request handler.
+
+//@ ghost stable live(id string) bool
+//@ ghost stable handled int
+//@ ghost stable emitted(w http.ResponseWriter) int
+//@
+//@ fun sidIn(r *http.Request) string = hval(r.Header, "Mcp-Session-Id")
+//@
+//@ func sessionManager.getSession
+//@   pure
+//@   ensures ret1 <==> live(id)
+//@   ensures ret1 ==> !isnil(ret) && ret.GetID() == id
+//@ func sessionManager.createSession
+//@   modifies live
+//@   ensures !isnil(result) && !old(live(result.GetID())) && live(result.GetID())
+//@   ensures forall k string :: k != result.GetID() ==> live(k) == old(live(k))
+//@ func sessionManager.terminateSession
+//@   modifies live(id)
+//@   ensures result <==> old(live(id))
+//@   ensures !live(id)
+//@
+//@ func responder.respond
+//@   modifies *, status(w), hval
+//@   ensures status(w) != 0
+//@ func requestHandler.handleRequest
+//@   counted handled
+//@   modifies *, handled
+//@ func requestHandler.handleNotification
+//@   modifies *, handled
+//@
+//@ func httpServerHandler.isValidPath
+//@   pure
+//@   ensures result <==> (h.serverPath == "" || requestPath == h.serverPath)
+//@ func httpServerHandler.sendNotificationResponse
+//@   modifies status(w), hval
+//@   ensures status(w) == (old(status(w)) == 0 ? 202 : old(status(w)))
+//@   ensures[C04 no-session-header-when-stateless] h.isStateless ==> hval(w.Header(), "Mcp-Session-Id") == old(hval(w.Header(), "Mcp-Session-Id"))
+//@ func httpServerHandler.sendEmptyResponse
+//@   modifies status(w), hval
+//@   ensures status(w) == (old(status(w)) == 0 ? statusCode : old(status(w)))
+//@   ensures[C04 no-session-header-when-stateless] h.isStateless ==> hval(w.Header(), "Mcp-Session-Id") == old(hval(w.Header(), "Mcp-Session-Id"))
+//@
+//@ func httpServerHandler.ServeHTTP
+//@   requires status(w) == 0
+//@   ensures[C03,C06 every-request-gets-a-status] status(w) != 0
+//@   ensures[C03,C06 wrong-path-is-404] !(h.serverPath == "" || r.URL.Path == h.serverPath) ==> status(w) == 404
+//@   ensures[C03,C04 unknown-verb-or-disabled-listening-stream-is-405] (h.serverPath == "" || r.URL.Path == h.serverPath) && r.Method != "POST" && r.Method != "DELETE" && (r.Method != "GET" || !h.enableGetSSE) ==> status(w) == 405
+//@ func httpServerHandler.handlePost
+//@   requires status(w) == 0
+//@   ensures[C03,C06 every-post-gets-a-status] status(w) != 0
+//@   ensures[C04 unknown-session-id-is-refused-and-changes-nothing] !h.isStateless && h.enableSession && old(sidIn(r)) != "" && !old(live(sidIn(r))) ==> (status(w) == 404 || status(w) == 400) && handled == old(handled) && (forall k string :: live(k) == old(live(k)))
+//@   ensures[C04 sessions-are-created-only-for-initialize-without-id] (h.isStateless || !h.enableSession || old(sidIn(r)) != "") ==> (forall k string :: live(k) == old(live(k)))
+//@   ensures[C04 at-most-one-session-created] forall a string, b string :: live(a) && !old(live(a)) && live(b) && !old(live(b)) ==> a == b
+//@   ensures[C04 no-session-is-deleted-by-a-post] forall k string :: old(live(k)) ==> live(k)
+//@ func httpServerHandler.handlePostRequest
+//@   requires status(w) == 0
+//@   modifies *, status(w), hval, handled
+//@   ensures[C03,C06] status(w) != 0
+//@ func httpServerHandler.handlePostNotification
+//@   requires status(w) == 0
+//@   modifies *, status(w), hval, handled
+//@   ensures[C03,C06] status(w) != 0
+//@   ensures[C03 handler-failure-is-500] true
+//@ func httpServerHandler.handlePostResponse
+//@   requires status(w) == 0
+//@   modifies *, status(w), hval, handled
+//@   ensures[C03,C06] status(w) != 0
+//@   ensures[C04 answer-without-session-is-404] isnil(session) ==> status(w) == 404 || status(w) == 400
+//@ func httpServerHandler.handleDelete
+//@   requires status(w) == 0
+//@   ensures[C03,C06] status(w) != 0
+//@   ensures[C04 delete-without-id-is-400] old(sidIn(r)) == "" ==> status(w) == 400 && (forall k string :: live(k) == old(live(k)))
+//@   ensures[C04 delete-of-unknown-session-is-404-and-changes-nothing] h.enableSession && old(sidIn(r)) != "" && !old(live(sidIn(r))) ==> status(w) == 404 && (forall k string :: live(k) == old(live(k)))
+//@   ensures[C04 delete-ends-the-session] h.enableSession && old(sidIn(r)) != "" && old(live(sidIn(r))) ==> status(w) == 200 && !live(old(sidIn(r))) && (forall k string :: k != old(sidIn(r)) ==> live(k) == old(live(k)))
+//@ func httpServerHandler.handleGet
+//@   requires status(w) == 0
+//@   modifies *, status(w), hval
+
+// Configuration of the HTTP handler is fixed once the handler is built (C13: no request path can park
+// request-derived state in it; C03/C04: the mode flags do not change under a request).
+//@ type httpServerHandler
+//@   init newHTTPServerHandler, withTransportSessionManager, withServerTransportLogger, withoutTransportSession, withServerPOSTSSEEnabled, withTransportGetSSEEnabled, withTransportNotificationBufferSize, withTransportStatelessMode, withTransportHTTPContextFuncs
+//@   final[C03,C04,C13] logger, sessionManager, requestHandler, enableSession, isStateless, responderFactory, notificationBufferSize, enablePostSSE, enableGetSSE, httpContextFuncs, serverPath, responseManager
+//@ type net/http.Request
+//@   final Method, URL, Header, Body
+//@ type net/url.URL
+//@   final Path
+
+//@ func jsonResponder.respond
+//@   modifies *, status(w), hval
+//@   ensures[C03 json-responder-always-writes-a-status] status(w) != 0
+//@   ensures[C04 no-session-header-when-stateless] r.isStateless ==> hval(w.Header(), "Mcp-Session-Id") == old(hval(w.Header(), "Mcp-Session-Id"))
+//@ func sseResponder.respond
+//@   modifies *, status(w), hval
+//@   ensures[C03 sse-responder-writes-a-status-unless-it-fails] ret == nil ==> status(w) != 0
+//@   ensures[C04 no-session-header-when-stateless] r.isStateless ==> hval(w.Header(), "Mcp-Session-Id") == old(hval(w.Header(), "Mcp-Session-Id"))
+//@ type jsonResponder
+//@   init newJSONResponder, withJSONStatelessMode
+//@   final[C04] isStateless
+//@ type sseResponder
+//@   init newSSEResponder, withSSEStatelessMode
+//@   final[C04] isStateless
